@@ -11,6 +11,7 @@ import MosVerif.Model.Router
 -- @component serve MosVerif.Listeners.runServe
 -- @component mixstress MosVerif.Listeners.runMixStress
 -- @component udpsize MosVerif.Listeners.runUdpSize
+-- @component handlemix MosVerif.Listeners.runHandleMix
 namespace MosVerif.Listeners
 open MosVerif MosVerif.Wire
 
@@ -71,6 +72,15 @@ def runMixStress (case impl : String) : String × String :=
     let c ← kvNat toks "clients"
     let p ← kvNat toks "per"
     pure (r * 8 * c * p)
+  judgeCounts n impl
+
+/-- `handlemix`: workers × queries per worker, all answered with their own data -/
+def runHandleMix (case impl : String) : String × String :=
+  let toks := words case
+  let n := do
+    let w ← kvNat toks "workers"
+    let p ← kvNat toks "per"
+    pure (w * p)
   judgeCounts n impl
 
 /-! ### `udpsize` (C09 at the UDP listener)
